@@ -226,6 +226,17 @@ def step (env : Env) (line : String) : Env × String :=
          | some nex, some fuel, some n => (env, s!"ok {effMaxVersion env nex fuel n}")
          | _, _, _ => bad)
       | _ => bad
+    else if op == "dispatch" then
+      match r with
+      | [p, id, impl] =>
+        (match p.toNat?, id.toNat? with
+         | some p, some id =>
+           (match findProto env p with
+            | some pd => (env, match dispatch pd (fun _ => impl == "1") id with
+                               | .notImplemented => "ok NotImplemented" | .run m => s!"ok run {m.name}")
+            | none => (env, "ok NotImplemented"))
+         | _, _ => bad)
+      | _ => bad
     else if op == "rmccfg" then
       match r with
       | [hdr, minor] =>
